@@ -116,7 +116,7 @@ func buildReaderModel(p *Program) *readerModel {
 	}()
 	for _, f := range m.Funcs {
 		for _, c := range strCompares(f) {
-			if isStartElemNameLocal(c.Operand) {
+			if isStartElemNameLocal(c.Operand) || paramIsElemName(p, f, c.Operand) {
 				m.ElemCmps[f] = append(m.ElemCmps[f], c)
 			} else if _, ok := isAttrNameLocal(c.Operand); ok {
 				m.AttrCmps[f] = append(m.AttrCmps[f], c)
@@ -153,10 +153,87 @@ func buildReaderModel(p *Program) *readerModel {
 					}
 					m.Stores[f] = append(m.Stores[f], fieldStore{Field: fv, Instr: x, Fn: f, Val: x.Val, Block: x.Block(), Direct: i == len(chain)-1 && isDirectFieldAddr(x.Addr)})
 				}
+				// a store through a slot chosen per element name (var slot **T; case "top": slot = &b.Top …;
+				// *slot = v): one store per alternative, located where the alternative was chosen
+				if ph, ok := x.Addr.(*ssa.Phi); ok {
+					for ei, e := range ph.Edges {
+						if ei >= len(ph.Block().Preds) {
+							continue
+						}
+						ch, _ := addrChain(e)
+						for i, fv := range ch {
+							if fv == nil {
+								continue
+							}
+							m.Stores[f] = append(m.Stores[f], fieldStore{Field: fv, Instr: x, Fn: f, Val: x.Val, Block: ph.Block().Preds[ei], Direct: i == len(ch)-1 && isDirectFieldAddr(e)})
+						}
+					}
+				}
 			}
 		})
 	}
 	return m
+}
+
+// paramIsElemName: v is a string parameter of f that receives the local name of a start tag —
+// f is called with t.Name.Local in that position, or f is a function literal handed to a driver
+// that calls its function-valued parameter with t.Name.Local there
+// (parseChildren(dec, "pBdr", func(name string, attrs []xml.Attr) { switch name { … } })).
+func paramIsElemName(p *Program, f *ssa.Function, v ssa.Value) bool {
+	par, ok := v.(*ssa.Parameter)
+	if !ok || par.Parent() != f || !isStringType(par.Type()) {
+		return false
+	}
+	pi := paramIndex(f, par)
+	if pi < 0 {
+		return false
+	}
+	// direct static calls
+	for _, cs := range staticCallSites(p, f) {
+		args := cs.Common().Args
+		if pi < len(args) && isStartElemNameLocal(args[pi]) {
+			return true
+		}
+	}
+	// a function literal passed on: find where the enclosing function hands it over
+	encl := f.Parent()
+	if encl == nil {
+		return false
+	}
+	found := false
+	allInstrs(encl, func(in ssa.Instruction) {
+		mc, ok := in.(*ssa.MakeClosure)
+		if !ok || mc.Fn != ssa.Value(f) || mc.Referrers() == nil {
+			return
+		}
+		for _, u := range *mc.Referrers() {
+			call, ok := u.(ssa.CallInstruction)
+			if !ok {
+				continue
+			}
+			g := staticCallee(call)
+			if g == nil || !p.inModule(g) {
+				continue
+			}
+			for ai, a := range call.Common().Args {
+				if a != ssa.Value(mc) || ai >= len(g.Params) {
+					continue
+				}
+				fp := g.Params[ai]
+				allInstrs(g, func(in2 ssa.Instruction) {
+					c2, ok := in2.(ssa.CallInstruction)
+					if !ok || c2.Common().Value != ssa.Value(fp) {
+						return
+					}
+					// a closure has no receiver: parameter index = argument index
+					if pi < len(c2.Common().Args) && isStartElemNameLocal(c2.Common().Args[pi]) {
+						found = true
+					}
+				})
+			}
+		}
+	})
+	return found
 }
 
 func isDirectFieldAddr(v ssa.Value) bool {
